@@ -295,6 +295,17 @@ impl NoGoodStore {
         }
         ClosureResult::Update(result)
     }
+
+    /// Verification hook: public view on the crate-private conclusion closure.
+    /// Returns `None` for an inconsistency, `Some(None)` for no update and `Some(Some(_))` for an update.
+    #[cfg(adf_obdd_verif)]
+    pub fn verif_conclusion_closure(&self, interpretation: &[Term]) -> Option<Option<Vec<Term>>> {
+        match self.conclusion_closure(interpretation) {
+            ClosureResult::Update(val) => Some(Some(val)),
+            ClosureResult::NoUpdate => Some(None),
+            ClosureResult::Inconsistent => None,
+        }
+    }
 }
 
 /// Allows to define how costly the DuplicateElemination is done.
